@@ -27,19 +27,24 @@
    VRule r / VRuleName r     one registered tokenizer function / its name (the
                              name is never used: opaque)
    VTuple l / VList l        tuple / list
-   VSeq l e                  an iterator that has not been advanced (a generator
-                             object, a fresh Buffer, itertools.chain, enumerate):
-                             it will produce the items l and then stop (e = None)
-                             or raise e.  Generators are run EAGERLY when they
-                             are created; the exception a lazy generator would
-                             raise when it is consumed is kept in e and raised by
-                             the consumer (for, list(...) inside TexEnv).  This
-                             is the same as Python's interleaving because a
-                             generator here only touches its own locals and its
-                             own input iterator, which nothing else can reach:
-                             a local that holds an iterator becomes UNBOUND
-                             when a statement reads it (`used`, below), so
-                             an iterator is consumed at most once.
+   VSeq buf l e              an iterator that has not been advanced (buf = true: a
+                             utils.Buffer at position 0, what @to_buffer()
+                             returns; false: a generator object, enumerate,
+                             reversed, itertools.chain): it will produce the
+                             items l and then stop (e = None) or raise e.
+                             Generators are run EAGERLY when they are created;
+                             the exception a lazy generator would raise when it
+                             is consumed is kept in e and raised by a consumer
+                             that exhausts the iterator first (''.join, list(..)
+                             inside TexEnv).  What a generator yielded before it
+                             raised is not kept (VSeq _ [] (Some e)), and a `for`
+                             over / chain of / buffer function applied to an
+                             iterator with a pending exception is OUnsup.  Eager
+                             = lazy here because a generator only touches its
+                             own locals and its own input iterator, which nothing
+                             else can reach: a local that holds an iterator
+                             becomes UNBOUND when a statement reads it (`used`,
+                             below), so an iterator is consumed at most once.
    VRead v / VReadExc e      what the translated reader's read_tex generator will
                              produce: the ReadDSL value of all its yields / the
                              exception it raises when consumed
@@ -96,8 +101,8 @@
                      tuple/list its elements; result VSeq.
    sep.join(x)       x an iterable of strs/Tokens: concatenation with sep
                      between; a non-str element is a TypeError: OUnsup.
-   enumerate(x, k)   x an un-advanced iterator / tuple / list.
-   reversed(x)       x a tuple / list.
+   enumerate(x, k)   x an un-advanced iterator / tuple / list / str; an iterator.
+   reversed(x)       x a tuple / list; an iterator.
    tokenizers        the module-level list of (name, function) in registration
                      order: env g_order (TokGen.gen_rule_order).
    CATEGORY_CODES.items()  Tables.category_table (regenerated from the same dict
@@ -124,9 +129,11 @@
    (characters left at loop entry) + 2; running out is OFuel (so a loop that
    does not consume is reported, never silently cut).
    read_tex(buf, skip_envs=s, tolerance=t)   ReadDSL.run on the translated
-                     reader (env g_reader) with fuel ReadDSL.gen_fuel, buf an
-                     un-advanced iterator of TC tokens, s a tuple/list of strs,
-                     t an int.
+                     reader (env g_reader) with fuel ReadDSL.gen_fuel, buf a
+                     fresh Buffer (VSeq true; read_tex calls buf.hasNext) of TC
+                     tokens, s a tuple/list of strs, t an int.  read_tex is a
+                     generator: its exception is raised by the consumer
+                     (VReadExc).
    Calls nest at most `depth` deep (TexSoup -> read -> tokenize -> next_token);
    the translator checks the call graph, so CFuel from depth does not occur.
    Exceptions are values of `exn`; nothing here catches them. *)
